@@ -27,6 +27,7 @@ ASSUMPTIONS = [
     "a DF17 frame with a payload bit flipped, a 3-byte fragment and the empty frame",
     "the clock of the property is the one the implementation documents: milliseconds, floor(timestamp * 1e3)",
     "driver hook H3 logs at the channel boundary: IN before send, OUT after the task is parked on recv() again",
+    "a reception = (receiver serial 0..4, unique id carried in the metadata's nanoseconds field): neighbouring receptions often come from the same receiver, as in production",
     "records still open when the input closes are not required (their window never closed)",
     "decode1090 -i/-d (the second copy of the algorithm, with a final flush) is observed from outside: JSON lines in, JSON lines out; "
     "timestamps there have at most 4 decimals so that every JSON reader parses them to the same double",
@@ -193,7 +194,8 @@ def judge(window, ins, outs, events, decodable):
 def scenario_of(window, ins, tag):
     lines = [{"reset": window, "tag": tag}]
     for frame, ts, rid in ins:
-        lines.append({"frame": frame, "ts": ts, "id": rid})
+        # receptions of one receiver share its serial (as in production); the unique reception id travels separately
+        lines.append({"frame": frame, "ts": ts, "id": rid, "rx": rid % 8})
     return lines
 
 
@@ -310,7 +312,7 @@ def assign_ids(batch, start):
         for f, ts in ins:
             # id = sequence number * 8 + receiver number: unique per reception
             rid += 8
-            h.append((f, ts, rid + (rid // 8) % 5))
+            h.append((f, ts, rid + [0, 0, 1, 0, 2, 1, 0, 3, 4, 0][(rid // 8) % 10]))
         out.append((window, h))
     return out, rid
 
@@ -353,7 +355,7 @@ def run_cli(rep, cli, window, ins, decodable, tmpdir):
     path = os.path.join(tmpdir, f"c10cli.{os.getpid()}.jsonl")
     with open(path, "w") as f:
         for frame, ts, rid in ins:
-            f.write(json.dumps({"timestamp": ts, "frame": frame, "metadata": [{"system_timestamp": ts, "serial": rid}]}) + "\n")
+            f.write(json.dumps({"timestamp": ts, "frame": frame, "metadata": [{"system_timestamp": ts, "serial": rid % 8, "nanoseconds": rid}]}) + "\n")
     try:
         p = subprocess.run([cli, "-i", path, "-d", str(window)], stdout=subprocess.PIPE, stderr=subprocess.PIPE, timeout=300)
     except subprocess.TimeoutExpired:
@@ -374,7 +376,7 @@ def run_cli(rep, cli, window, ins, decodable, tmpdir):
         if not line.strip():
             continue
         o = json.loads(line)
-        got.append((o.get("frame"), o.get("timestamp"), tuple(m.get("serial") for m in o.get("metadata", []))))
+        got.append((o.get("frame"), o.get("timestamp"), tuple(m.get("nanoseconds") for m in o.get("metadata", []))))
     batches, monotone = cli_expected(window, ins, decodable)
     rep.cls("cli:history:monotone" if monotone else "cli:history:non-monotone")
     rep.cls("cli:receptions", len(ins))
